@@ -292,6 +292,7 @@ func (m *collection) mergerMain(stackDirtyMid, stackDirtyBase *segmentStack,
 			// Do this only for idle-compactions.
 			atomic.AddUint64(&m.stats.TotMergerEmptyDirtyMid, 1)
 			m.m.Lock() // Allow an empty stackDirtyMid to kick persistence.
+			stackDirtyMid.addRef() // m.stackDirtyMid takes its own ref-count.
 			stackDirtyMidPrev := m.stackDirtyMid
 			m.stackDirtyMid = stackDirtyMid
 			m.m.Unlock()
